@@ -29,6 +29,10 @@ type Param struct {
 	Soft     bool
 	Fields   []Param // PObject
 	Tag      string  // raw struct tag overriding the generated one (bad-input grammars)
+	// Embed (PObject): where the embedded dig.In sits. 0 first; 1 last; 2
+	// after an embedded plain struct Pad2 (which itself embeds two structs and
+	// is an optional dependency of its own); 3 after the first field.
+	Embed int
 }
 
 type RKind int
@@ -50,6 +54,7 @@ type Result struct {
 	N       int    // number of elements for flatten results
 	Fields  []Result
 	Tag     string // raw struct tag overriding the generated one
+	Embed   int    // RObject: position of the embedded dig.Out (0 first, 1 last, 3 after the first field)
 }
 
 // Func is the specification of one user function plus the options it is
@@ -124,6 +129,9 @@ func (f *Func) PLeaves() []PLeaf {
 			obj++
 			me := obj
 			np := append(append([]int{}, path...), me)
+			if p.Embed == 2 {
+				out = append(out, PLeaf{Key: Key{T: "Pad2"}, Optional: true, Obj: me, ObjPath: np, Pos: pos})
+			}
 			for _, q := range p.Fields {
 				walk(q, me, np, pos)
 			}
@@ -323,6 +331,23 @@ var (
 	outType = reflect.TypeOf(dig.Out{})
 )
 
+// placeMarker inserts the embedded dig.In / dig.Out into the field list.
+func placeMarker(fields []reflect.StructField, marker reflect.StructField, style int) []reflect.StructField {
+	switch style {
+	case 1:
+		return append(fields, marker)
+	case 2:
+		pad := reflect.StructField{Name: "Pad2", Type: tPad2, Anonymous: true, Tag: `optional:"true"`}
+		return append([]reflect.StructField{pad, marker}, fields...)
+	case 3:
+		if len(fields) > 0 {
+			out := append([]reflect.StructField{fields[0], marker}, fields[1:]...)
+			return out
+		}
+	}
+	return append([]reflect.StructField{marker}, fields...)
+}
+
 func paramType(p Param) reflect.Type {
 	switch p.Kind {
 	case PSingle:
@@ -330,7 +355,7 @@ func paramType(p Param) reflect.Type {
 	case PGroup:
 		return reflect.SliceOf(TypeOf(p.Type))
 	case PObject:
-		fields := []reflect.StructField{{Name: "In", Type: inType, Anonymous: true}}
+		var fields []reflect.StructField
 		for i, q := range p.Fields {
 			var tags []string
 			if q.Kind == PSingle {
@@ -358,7 +383,7 @@ func paramType(p Param) reflect.Type {
 				Tag:  reflect.StructTag(tag),
 			})
 		}
-		return reflect.StructOf(fields)
+		return reflect.StructOf(placeMarker(fields, reflect.StructField{Name: "In", Type: inType, Anonymous: true}, p.Embed))
 	}
 	panic("paramType")
 }
@@ -373,7 +398,7 @@ func resultType(r Result) reflect.Type {
 		}
 		return TypeOf(r.Type)
 	case RObject:
-		fields := []reflect.StructField{{Name: "Out", Type: outType, Anonymous: true}}
+		var fields []reflect.StructField
 		for i, q := range r.Fields {
 			var tags []string
 			if q.Kind == RSingle && q.Name != "" {
@@ -396,7 +421,7 @@ func resultType(r Result) reflect.Type {
 				Tag:  reflect.StructTag(tag),
 			})
 		}
-		return reflect.StructOf(fields)
+		return reflect.StructOf(placeMarker(fields, reflect.StructField{Name: "Out", Type: outType, Anonymous: true}, r.Embed))
 	}
 	panic("resultType")
 }
@@ -482,8 +507,12 @@ func collectArgs(ps []Param, args []reflect.Value) []ArgObs {
 			out = append(out, a)
 			leaf++
 		case PObject:
+			if p.Embed == 2 {
+				out = append(out, ArgObs{Leaf: leaf, Toks: []Tok{{}}, IsZero: true})
+				leaf++
+			}
 			for i, q := range p.Fields {
-				walk(q, v.Field(i+1))
+				walk(q, v.FieldByName(fmt.Sprintf("F%d", i)))
 			}
 		}
 	}
@@ -531,7 +560,8 @@ func (rt *Runtime) Body(f *Func, inst string, ft reflect.Type, args []reflect.Va
 		case RObject:
 			v := reflect.New(t).Elem()
 			for i, q := range r.Fields {
-				v.Field(i + 1).Set(build(q, t.Field(i+1).Type, false))
+				fv := v.FieldByName(fmt.Sprintf("F%d", i))
+				fv.Set(build(q, fv.Type(), false))
 			}
 			return v
 		default:
